@@ -30,7 +30,7 @@ MINTER_UPD = mbt("minter-upd", MINTER, "MBT_Minter.tla", "minter", "mc/MBT_Minte
 DIST = ["DecArith.tla", "Distributor.tla", "mc/MC_Distributor.tla", "mc/MBT_Distributor.tla"]
 DIST_MC = mc("dist-mc", DIST, "MC_Distributor.tla", "mc/MC_Distributor_quick.cfg", "mc/MC_Distributor_thorough.cfg")
 DIST_MC_FAULTS = mc("dist-mc-faults", DIST, "MC_Distributor.tla", "mc/MC_Distributor_faults_quick.cfg")
-DIST_CUR = mbt("dist-curated", DIST, "MBT_Distributor.tla", "distributor", "mc/MBT_Distributor_quick.cfg", "mc/MBT_Distributor_quick.cfg",
+DIST_CUR = mbt("dist-curated", DIST, "MBT_Distributor.tla", "distributor", "mc/MBT_Distributor_quick.cfg", "mc/MBT_Distributor_faults_thorough.cfg",
                require=["act.block", "act.deposit", "act.export", "block.faulty"])
 DIST_MULTI = mbt("dist-multidenom", DIST, "MBT_Distributor.tla", "distributor", "mc/MBT_Distributor_multi_quick.cfg", "mc/MBT_Distributor_multi_quick.cfg")
 DIST_UPD = mbt("dist-upd", DIST, "MBT_Distributor.tla", "distributor", "mc/MBT_Distributor_upd_quick.cfg", "mc/MBT_Distributor_upd_quick.cfg",
@@ -125,7 +125,7 @@ PROPS = {
     "C01": {"level": "model_checking", "stages": [CHAIN_MBT, DIST_MULTI, DIST_CUR, VEST_POOLS, MINTER_SCHED, CHAIN_TRACE], "assumptions": CHAIN_ASSUME},
     "C10": {"level": "model_checking", "stages": [CHAIN_MBT, MINTER_UPD, DIST_CUR, DIST_UPD, MINTER_NUM, DIST_HUGE, CHAIN_TRACE], "assumptions": CHAIN_ASSUME},
     "C11": {"level": "model_checking", "stages": [CHAIN_REPL], "assumptions": CHAIN_ASSUME + ["Tendermint and IAVL are trusted; replicas are application instances fed the same ABCI calls"]},
-    "C12": {"level": "model_checking", "stages": [CHAIN_MBT, MINTER_SCHED, DIST_CUR, VEST_ACCTS, SIG_MBT, CHAIN_TRACE], "assumptions": CHAIN_ASSUME},
+    "C12": {"level": "model_checking", "stages": [CHAIN_MBT, MINTER_SCHED, DIST_CUR, VEST_ACCTS, VEST_POOLS, SIG_MBT, CHAIN_TRACE], "assumptions": CHAIN_ASSUME},
     "C13": {"level": "model_checking", "stages": [MINTER_UPD, DIST_UPD, VEST_ACCTS, CHAIN_MBT, CHAIN_TRACE], "assumptions": CHAIN_ASSUME},
     "C16": {"level": "model_checking", "stages": [UPG_MBT],
             "assumptions": TRUST + ["the upgrade is executed as its parts (the three Migrator.Migrate2to3, v120.UpdateVestingAccountTraces, ModifyVestingPoolsState, ModifyVestingAccountsState) on a store filled with legacy-format records; x/upgrade plan handling and the ICA module initialisation are not driven"]},
